@@ -105,7 +105,7 @@ def run(tier, seed, replay=None):
                    "termination are not proved; the functional comparison with the model's "
                    "transcription exercises the re-numbering on every run"]
     rep.lean = lean_obligations(PROP, thorough=(tier == "thorough"))
-    n_diagrams = 150 if tier == "quick" else 1500
+    n_diagrams = 150 if tier == "quick" else 6000
     rng = random.Random(seed)
     drv = Driver()
     fam = Family("rigid")
